@@ -22,13 +22,14 @@ func (c16) NumCases(tier string) int {
 	if tier == "thorough" {
 		return 60_000
 	}
-	return 320
+	return 400
 }
 
 func (c16) Describe() CheckInfo {
 	return CheckInfo{
 		Level: "fault_enumeration",
 		Rule: "per seeded world (1-5 target files, 1-2 patches, in-place/diff/print mode) a fault-free pilot run yields the op sequence and the complete patched bytes; then EVERY operation of the pilot is failed once (errno by class) and the process is killed before every operation, and every file write is failed and killed after every byte offset 0..n (strided only above 160 bytes in the quick tier), plus seeded fault pairs; " +
+			"restart worlds: the in-place run is killed before every operation from its first mutation on (and inside writes, and failed on a persistently full disk), then a second, fault-free invocation (same patch, or another patch with shorter output) runs on exactly what the first left behind and is compared with the same invocation on that state minus the leftovers; " +
 			"input-failure worlds put an unparseable target, an unparseable-result (misfit) target, a missing path, an unreadable patch, -P list or list member at every position. " +
 			"distinct = distinct (fault kind, op class, byte-offset class, role of the struck file, mode) tuples that actually fired",
 		Assumptions: []string{
@@ -38,7 +39,7 @@ func (c16) Describe() CheckInfo {
 		},
 		RealCode:       []string{"gopatch main()/runMain/mainCmd.Run, findFiles/findGoFiles, loader, internal/*, all dependencies"},
 		Stubs:          []string{"package os (simulated filesystem with byte-granular write faults and kill), path/filepath walk, io/ioutil"},
-		RequiredProbes: []string{"write-fault-after-truncate", "kill-between-open-and-first-byte", "kill-mid-write", "write-fault-mid-write", "open-fail-target", "open-fail-patch", "read-fail", "walk-fail", "unparseable-target", "misfit-target", "rewrite-error-target", "missing-path", "multi-file-fault-on-non-first", "fault-pair", "sticky-write-fault"},
+		RequiredProbes: []string{"write-fault-after-truncate", "kill-between-open-and-first-byte", "kill-mid-write", "write-fault-mid-write", "open-fail-target", "open-fail-patch", "read-fail", "walk-fail", "unparseable-target", "misfit-target", "rewrite-error-target", "missing-path", "multi-file-fault-on-non-first", "fault-pair", "sticky-write-fault", "restart-second-run", "restart-with-leftover-temporary"},
 	}
 }
 
@@ -65,8 +66,16 @@ func (c16) Gen(env *Env, seed uint64, tier string, i int) *Case {
 	sub := "faults"
 	if i%4 == 3 {
 		sub = "inputs"
+	} else if i%4 == 1 {
+		sub = "restart"
 	}
 	c := NewCLICase("C16", sub, i, seed)
+	if sub == "restart" {
+		c16GenRestart(c, r)
+		c.Extra["rng"] = fmt.Sprint(r.Uint64())
+		c.RebuildArgs()
+		return c
+	}
 	tm := []*Template{Templates[r.Intn(len(Templates))]}
 	pp := GenPatchPlan(r, 2, append(tm, Templates...))
 	pp.Install(c, r)
@@ -268,6 +277,9 @@ func opClass(o world.Op, wrote map[int]bool) string {
 func (c16) Eval(env *Env, c *Case) []Violation {
 	if c.Sub == "inputs" {
 		return c16EvalInputs(env, c)
+	}
+	if c.Sub == "restart" {
+		return c16EvalRestart(env, c)
 	}
 	base := c.Spec.Clone()
 	base.Faults = nil
